@@ -11,6 +11,7 @@ from pyvc.core import *
 from contracts.graph_theory import *
 from contracts.task import F, EMPTY, H, Inv, INV_LABELS, U1, parent_setter_call, LInv_side, LINK_LABS, link_setter_call, t_, c_, a_, b_, w_, KID_AX, kid, forest_struct, up_struct
 from contracts.children import LABS, ChildrenPlugin, blank, ANY, KWD
+from contracts.closure import one_of, ONE_AX
 from contracts.task import FAC_CLASSES, c_children, c_facade_append, FAC
 from pyvc.unit import Unit
 
@@ -20,6 +21,9 @@ rid = Function('raw_id', RAW.z, IntSort()); rpar = Function('raw_parent_id', RAW
 DMd = Datatype('IdDict'); DMd.declare('mk', ('dom', ArraySort(IntSort(), BoolSort())), ('val', ArraySort(IntSort(), T.z))); DMd = DMd.create()
 DM = S('IdDict', DMd)
 j_, k2_ = Ints('j_ k2_')
+row_of_id = Function('row_of_id', IntSort(), IntSort())          # "the ids of the rows are pairwise different" is stated as: the row index is a function of the id (the same fact; linear instead of quadratic for the solver)
+LINKS = Bool('links_in_view')          # switch: the clauses about the dependency lists are hypotheses `LINKS -> clause`; a query about the hierarchy runs with LINKS false (fewer hypotheses: sound), one about the links with LINKS true
+LINK_CLAUSES = ('links/', 'ghost-relation-fixed', 'new-tasks-are-unlinked')
 
 
 class RawPlugin(ChildrenPlugin):
@@ -100,12 +104,26 @@ class RawPlugin(ChildrenPlugin):
         return ChildrenPlugin.cmp(self, eng, st, k, l_, r, line)
 
 
-def raws_to_wbs_unit():
+def _link_part(name):          # the obligations of the dependency loops (their own unit: the dependency theory is needed only there)
+    return any(k in name for k in ('#4', '#5', 'req@link.setter', 'ens/C13/the-predecessors')) and not name.startswith('lemma@')
+
+
+def raws_to_wbs_unit(links=False):
     def build():
         hc = lambda c: H(c.eng, c.st); h0 = lambda c: H(c.eng, c.pre)
         RS = lambda c: c['raws']; TS = lambda c: c.st.ghost['TS']
         n = lambda c: LRAW.len(RS(c))
         rowid = lambda c, j: rid(LRAW.at(RS(c), j))
+
+        LX = ['ND-no-link-listed-twice', 'O1-list-objects-distinct', 'SYNC-ghost-relation-mirrors-the-lists', 'C01/M2-dependency-relation-acyclic']          # the clauses of the link invariant that Inv does not carry
+
+        def links_inv(c):
+            return {'links/' + l_: Implies(LINKS, LInv_side('pre', hc(c), c.st.ghost['E'])[l_]) for l_ in LX}
+        LXL = ['links/' + l_ for l_ in LX]
+
+        def unlinked(c):          # the tasks of the rows carry no dependency until the last loop
+            h = hc(c)
+            return Implies(LINKS, ForAll([x], Implies(mem(TS(c), x), And(h.P(x) == empty, h.S(x) == empty)), patterns=[mem(TS(c), x)]))
 
         def c_new_task(eng, st, recv, args, kws, node):
             """Task(id=..., name=..., ...) without graph arguments: contract of Task.__init__ (proved) on a blank object: the id is set, Inv holds, nothing else changes"""
@@ -113,7 +131,7 @@ def raws_to_wbs_unit():
             st.oblige('req@Task.__init__/id-is-not-the-reserved-one', idv != EMPTY, f'@{node.lineno}')
             for lab, g in Inv(h).items():
                 if lab != U1: st.oblige(f'req@Task.__init__/{lab}', g, f'@{node.lineno}')
-            st.assume(blank(h, r)); st.assume(Not(mem(st.ghost['TS'], r)))
+            st.assume(blank(h, r)); st.assume(Not(mem(st.ghost['TS'], r))); st.assume(And(h.P(r) == empty, h.S(r) == empty))
             eng.write(st, 'Task._Task__id', Store(h.tid, r, idv))
             for fld in ('_Task__children', '_Task__predecessors', '_Task__successors'):
                 lo = fresh('newlist', LR); st.assume(lo != LR.null)
@@ -137,9 +155,11 @@ def raws_to_wbs_unit():
                                                           ForAll([j_], Implies(And(0 <= j_, j_ < i), And(fresh_task(h, at(TS(c), j_)), h.tid[at(TS(c), j_)] == rowid(c, j_),
                                                                                                         Select(DMd.dom(D), rowid(c, j_)), Select(DMd.val(D), rowid(c, j_)) == at(TS(c), j_))), patterns=[at(TS(c), j_)]),
                                                           ForAll([k2_], Implies(Select(DMd.dom(D), k2_), Exists([j_], And(0 <= j_, j_ < i, rowid(c, j_) == k2_))), patterns=[Select(DMd.dom(D), k2_)])),
-                      'nothing-else-refers-to-the-new-tasks': ForAll([t_, j_], Implies(And(t_ != null, 0 <= j_, j_ < i), And(h.par[t_] != at(TS(c), j_), Not(mem(h.ch(t_), at(TS(c), j_))))), patterns=[MultiPattern(h.par[t_], at(TS(c), j_))])})
+                      'ghost-relation-fixed': Implies(LINKS, c.st.ghost['E'] == c.pre.ghost['E']), 'new-tasks-are-unlinked': unlinked(c), **links_inv(c),
+                      'nothing-else-refers-to-the-new-tasks': And(ForAll([t_], Implies(t_ != null, Not(mem(TS(c), h.par[t_]))), patterns=[h.par[t_]]),
+                                                                  ForAll([t_, x], Implies(And(t_ != null, mem(h.ch(t_), x)), Not(mem(TS(c), x))), patterns=[mem(h.ch(t_), x)]))})
             return d
-        IL1 = LABS + ['rows-so-far-have-their-tasks', 'nothing-else-refers-to-the-new-tasks']
+        IL1 = LABS + ['rows-so-far-have-their-tasks', 'nothing-else-refers-to-the-new-tasks', 'ghost-relation-fixed', 'new-tasks-are-unlinked'] + LXL
 
         # ---------------------------------------------------------------- loop 2: every task goes below the task of its parent row
         D_ = lambda c: c['tasks_by_id']
@@ -161,14 +181,16 @@ def raws_to_wbs_unit():
             d = {l_: v for l_, v in Inv(h).items() if l_ != U1}
             d.update({'table': And(table(c), i >= 0, i <= n(c)),
                       'parents-of-the-rows-placed-so-far': ForAll([j_], Implies(And(0 <= j_, j_ < n(c)), h.par[task_of(c, j_)] == If(And(j_ < i, resolvable(c, j_)), parent_of(c, j_), null)), patterns=[at(TS(c), j_)]),
+                      'ghost-relation-fixed': Implies(LINKS, c.st.ghost['E'] == c.pre.ghost['E']), 'new-tasks-are-unlinked': unlinked(c), **links_inv(c),
                       'no-new-task-has-an-owner-yet': ForAll([x], Implies(mem(TS(c), x), h.own[x] == W.null), patterns=[mem(TS(c), x)]),
                       'only-new-tasks-are-below-new-tasks': ForAll([t_, x], Implies(And(t_ != null, mem(h.ch(t_), x), Or(mem(TS(c), t_), mem(TS(c), x))), And(mem(TS(c), t_), mem(TS(c), x))), patterns=[mem(h.ch(t_), x)]),
+                      'children-of-new-tasks-are-new-tasks': closedL(h.par, TS(c)),
                       'root-candidates-so-far': And(nodup(R_), ForAll([x], mem(R_, x) == And(mem(TS(c), x), idx(TS(c), x) < i, Not(resolvable(c, idx(TS(c), x)))), patterns=[mem(R_, x)]),
                                                     ForAll([a_, b_], Implies(And(mem(R_, a_), mem(R_, b_)), (idx(R_, a_) < idx(R_, b_)) == (idx(TS(c), a_) < idx(TS(c), b_))), patterns=[MultiPattern(idx(R_, a_), idx(R_, b_))])),
                       'siblings-are-in-row-order': ForAll([a_, b_], Implies(And(mem(TS(c), a_), mem(TS(c), b_), h.par[a_] != null, h.par[a_] == h.par[b_], idx(TS(c), a_) < idx(TS(c), b_)),
                                                                         idx(h.ch(h.par[a_]), a_) < idx(h.ch(h.par[a_]), b_)), patterns=[MultiPattern(idx(TS(c), a_), idx(TS(c), b_))])})
             return d
-        IL2 = LABS + ['table', 'parents-of-the-rows-placed-so-far', 'no-new-task-has-an-owner-yet', 'only-new-tasks-are-below-new-tasks', 'root-candidates-so-far', 'siblings-are-in-row-order']
+        IL2 = LABS + ['table', 'parents-of-the-rows-placed-so-far', 'no-new-task-has-an-owner-yet', 'only-new-tasks-are-below-new-tasks', 'children-of-new-tasks-are-new-tasks', 'root-candidates-so-far', 'siblings-are-in-row-order', 'ghost-relation-fixed', 'new-tasks-are-unlinked'] + LXL
 
         # ---------------------------------------------------------------- loop 3: the root candidates become the root tasks of the new WBS
         WN = lambda c: c.st.ghost['W1']
@@ -178,46 +200,79 @@ def raws_to_wbs_unit():
             h = hc(c); R_ = c['roots']; i = ln(R_) if final else c['_i3']; rw = rootw(c)
             d = {l_: v for l_, v in Inv(h).items() if l_ != U1}
             d.update({'table': And(table(c), c['wbs'] == WN(c), WN(c) != W.null, rw != null, Not(mem(TS(c), rw)), h.tid[rw] == EMPTY, *([] if final else [i >= 0, i <= ln(R_)])),
+                      **({} if final else {'ghost-relation-fixed': Implies(LINKS, c.st.ghost['E'] == c.pre.ghost['E']), 'new-tasks-are-unlinked': unlinked(c)}), **links_inv(c),
                       'root-candidates': And(nodup(R_), ForAll([x], mem(R_, x) == And(mem(TS(c), x), Not(resolvable(c, idx(TS(c), x)))), patterns=[mem(R_, x)]),
                                              ForAll([a_, b_], Implies(And(mem(R_, a_), mem(R_, b_)), (idx(R_, a_) < idx(R_, b_)) == (idx(TS(c), a_) < idx(TS(c), b_))), patterns=[MultiPattern(idx(R_, a_), idx(R_, b_))])),
                       'parents': ForAll([j_], Implies(And(0 <= j_, j_ < n(c)), h.par[task_of(c, j_)] == If(resolvable(c, j_), parent_of(c, j_), If(idx(R_, task_of(c, j_)) < i, rw, null))), patterns=[at(TS(c), j_)]),
+                      'children-of-new-tasks-are-new-tasks': closedL(h.par, TS(c)),
+                      'members-of-the-new-WBS-are-new-tasks': ForAll([x], Implies(Desc(h.par, rw, x), mem(TS(c), x)), patterns=[Desc(h.par, rw, x)]),
                       'root-tasks-so-far-in-row-order': And(ForAll([x], mem(h.ch(rw), x) == And(mem(R_, x), idx(R_, x) < i), patterns=[mem(h.ch(rw), x)]),
                                                            ForAll([a_, b_], Implies(And(mem(h.ch(rw), a_), mem(h.ch(rw), b_)), (idx(h.ch(rw), a_) < idx(h.ch(rw), b_)) == (idx(R_, a_) < idx(R_, b_))),
                                                                   patterns=[MultiPattern(idx(h.ch(rw), a_), idx(h.ch(rw), b_))])),
                       'siblings-are-in-row-order': ForAll([a_, b_], Implies(And(mem(TS(c), a_), mem(TS(c), b_), h.par[a_] != null, h.par[a_] != rw, h.par[a_] == h.par[b_], idx(TS(c), a_) < idx(TS(c), b_)),
                                                                         idx(h.ch(h.par[a_]), a_) < idx(h.ch(h.par[a_]), b_)), patterns=[MultiPattern(idx(TS(c), a_), idx(TS(c), b_))])})
             return d
-        IL3 = LABS + ['table', 'root-candidates', 'parents', 'root-tasks-so-far-in-row-order', 'siblings-are-in-row-order']
+        IL3 = LABS + ['table', 'root-candidates', 'parents', 'children-of-new-tasks-are-new-tasks', 'members-of-the-new-WBS-are-new-tasks', 'root-tasks-so-far-in-row-order', 'siblings-are-in-row-order'] + LXL
 
-        def inv4(c):          # looking every row up by id changes nothing
-            h, e = hc(c), H(c.eng, c.entry)
+        q_ = Int('q_')
+        pre_ids = lambda c, j: rpre(LRAW.at(RS(c), j))
+        linked = lambda c, j, x, upto=None: Exists([q_], And(0 <= q_, q_ < (LINT.len(pre_ids(c, j)) if upto is None else upto), Select(DMd.dom(D_(c)), LINT.at(pre_ids(c, j), q_)),
+                                                              x == Select(DMd.val(D_(c)), LINT.at(pre_ids(c, j), q_))))
+
+        def inv4(c, inner=False):          # the dependency loop: the hierarchy stays as built; the rows passed have exactly the listed tasks as predecessors
+            h = hc(c); i4 = c['_i4']
             d = inv3(c, final=True)
-            d['frame'] = And(h.par == e.par, h.own == e.own, h.elems == e.elems, c['roots'] == c.entry.env['roots'].e, c['_i4'] >= 0)
+            done = i4 - 1 if inner else i4          # rows completely processed
+            d['rows'] = And(i4 >= (1 if inner else 0), i4 <= n(c), *([c['raw'] == LRAW.at(RS(c), i4 - 1), c['_i5'] >= 0, c['_i5'] <= LINT.len(pre_ids(c, i4 - 1)), c['task'] == task_of(c, i4 - 1)] if inner else []))
+            d['dependencies-of-the-rows-passed'] = ForAll([j_, x], Implies(And(0 <= j_, j_ < n(c)), mem(h.P(task_of(c, j_)), x) == If(j_ < done, linked(c, j_, x), If(And(BoolVal(inner), j_ == done), linked(c, j_, x, c['_i5'] if inner else 0), False))),
+                                                          patterns=[mem(h.P(task_of(c, j_)), x)])
             return d
-        IL4 = IL3 + ['frame']
+        IL4 = IL3 + ['rows', 'dependencies-of-the-rows-passed']
+
+        CUTS = ['siblings-are-in-row-order', 'parents-of-the-rows-placed-so-far', 'root-candidates-so-far', 'only-new-tasks-are-below-new-tasks', 'children-of-new-tasks-are-new-tasks']
+
+        def c_append(eng, st, recv, args, kws, node):
+            """loop 2 moves a task with two setter calls in a row (parent_task.children.append(task), then task.parent = parent_task).  Cut lemmas keep the queries small: the clauses
+            about the whole forest are proved right after the first call and assumed from there on; the second call is shown to change nothing"""
+            res = c_facade_append(eng, st, recv, args, kws, node)
+            if 'parent_task' not in ast.unparse(node): return res
+            for s2, r in res:
+                if isinstance(r, Raise): continue
+                cc = Ctx(eng, s2, pre=eng.pre_state); d = inv2(cc)
+                for lab in CUTS:
+                    s2.oblige(f'lemma@children.append/{lab}', d[lab], f'@{node.lineno}'); s2.assume(d[lab])
+            return res
 
         def c_set_parent(eng, st, recv, args, kws, node):
-            return parent_setter_call(eng, st, recv.e, eng.coerce(args[0], T), node.lineno)
+            h1 = H(eng, st)
+            res = parent_setter_call(eng, st, recv.e, eng.coerce(args[0], T), node.lineno)
+            for s2, r in res:
+                if isinstance(r, Raise): continue
+                h2 = H(eng, s2)
+                lem = And(h2.par == h1.par, h2.own == h1.own, ForAll([t_], Implies(t_ != null, h2.ch(t_) == h1.ch(t_)), patterns=[h2.chl[t_]]))
+                s2.oblige('lemma@task.parent=/setting-the-parent-the-task-already-has-changes-nothing', lem, f'@{node.lineno}'); s2.assume(lem)
+            return res
 
         def inv1b(c):          # the inner loop over the additional attributes changes nothing of the graph
             h, e = hc(c), H(c.eng, c.entry)
             return {'frame': And(h.par == e.par, h.own == e.own, h.elems == e.elems, h.chl == e.chl, h.tid == e.tid, h.root == e.root, h.pre == e.pre, h.suc == e.suc, c['tasks_by_id'] == c.entry.env['tasks_by_id'].e,
                                  c.st.ghost['TS'] == c.entry.ghost['TS'], c['_i0'] == c.entry.env['_i0'].e, c['t'] == c.entry.env['t'].e)}
-        fc = {'sig': {'raws': LRAW}, 'locals': {'tasks_by_id': DM, 'roots': LT, 't': T, 'task': T, 'parent_task': T, 'wbs': W, 'raw': RAW}, 'ghost': {'TS': LT, 'W1': W},
+        fc = {'sig': {'raws': LRAW}, 'locals': {'tasks_by_id': DM, 'roots': LT, 't': T, 'task': T, 'parent_task': T, 'wbs': W, 'raw': RAW}, 'ghost': {'TS': LT, 'W1': W, 'E': S('REL', REL)},
               'requires': [(l_, (lambda l_: lambda c: Inv(hc(c))[l_])(l_)) for l_ in LABS] +
                           [('rows-with-pairwise-different-public-ids', lambda c: And(n(c) >= 0, c.st.ghost['TS'] == empty,
                                                                                    ForAll([j_], Implies(And(0 <= j_, j_ < n(c)), And(LRAW.at(RS(c), j_) != RAW.null, rowid(c, j_) != EMPTY)), patterns=[LRAW.at(RS(c), j_)]),
-                                                                                   ForAll([j_, k2_], Implies(And(0 <= j_, j_ < k2_, k2_ < n(c)), rowid(c, j_) != rowid(c, k2_))))),
-                           ('rows-without-dependencies (domain of this proof; with them: bounded stand-in)', lambda c: ForAll([j_], Implies(And(0 <= j_, j_ < n(c)), LINT.len(rpre(LRAW.at(RS(c), j_))) == 0), patterns=[LRAW.at(RS(c), j_)]))],
+                                                                                   ForAll([j_], Implies(And(0 <= j_, j_ < n(c)), row_of_id(rowid(c, j_)) == j_), patterns=[LRAW.at(RS(c), j_)]))),
+                           ('dependency-id-lists-are-lists', lambda c: ForAll([j_], Implies(And(0 <= j_, j_ < n(c)), LINT.len(rpre(LRAW.at(RS(c), j_))) >= 0), patterns=[LRAW.at(RS(c), j_)]))] +
+                          [('links/' + l_, (lambda l_: lambda c: Implies(LINKS, LInv_side('pre', hc(c), c.st.ghost['E'])[l_]))(l_)) for l_ in LX],
               'loops': {1: {'fingerprint': 'for k in raw.__dict__.keys()', 'invariant': [('build/' + l_, (lambda l_: lambda c: inv1b(c)[l_])(l_)) for l_ in ['frame']]},
                         2: {'fingerprint': 'for raw in raws', 'havoc': ['roots'], 'havoc_heap': ['Task._Task__parent', 'Task._Task__wbs', 'PyList.elems'],
                             'invariant': [('place/' + l_, (lambda l_: lambda c: inv2(c)[l_])(l_)) for l_ in IL2]},
                         3: {'fingerprint': 'for r in roots', 'havoc_heap': ['Task._Task__parent', 'Task._Task__wbs', 'PyList.elems'],
-                            'invariant': [('adopt/' + l_, (lambda l_: lambda c: inv3(c)[l_])(l_)) for l_ in IL3]},
-                        4: {'fingerprint': 'for raw in raws', 'invariant': [('lookup/' + l_, (lambda l_: lambda c: inv4(c)[l_])(l_)) for l_ in IL4]},
-                        5: {'fingerprint': 'for predecessor_id in raw.predecessor_ids',
-                            'invariant': [('lookup/' + l_, (lambda l_: lambda c: inv4(c)[l_])(l_)) for l_ in IL4] +
-                                         [('lookup/current-row', lambda c: And(c['_i4'] >= 1, c['_i4'] <= n(c), c['raw'] == LRAW.at(RS(c), c['_i4'] - 1), c['_i5'] >= 0))]},
+                            'invariant': [('adopt/' + l_, (lambda l_: lambda c: inv3(c)[l_])(l_)) for l_ in IL3 + ['ghost-relation-fixed', 'new-tasks-are-unlinked']]},
+                        4: {'fingerprint': 'for raw in raws', 'havoc_heap': ['PyList.elems', 'Task._Task__predecessors', 'Task._Task__successors'], 'havoc_ghost': ['E'],
+                            'invariant': [('link/' + l_, (lambda l_: lambda c: inv4(c)[l_])(l_)) for l_ in IL4]},
+                        5: {'fingerprint': 'for predecessor_id in raw.predecessor_ids', 'havoc_heap': ['PyList.elems', 'Task._Task__predecessors', 'Task._Task__successors'], 'havoc_ghost': ['E'],
+                            'invariant': [('link/' + l_, (lambda l_: lambda c: inv4(c, inner=True)[l_])(l_)) for l_ in IL4]},
                         0: {'fingerprint': 'for raw in raws', 'havoc': ['tasks_by_id'], 'havoc_ghost': ['TS'], 'havoc_heap': ['Task._Task__id', 'PyList.elems', 'Task._Task__children', 'Task._Task__predecessors', 'Task._Task__successors'],
                             'invariant': [('build/' + l_, (lambda l_: lambda c: inv1(c)[l_])(l_)) for l_ in IL1]}},
               'raises': {'RuntimeError': []},
@@ -227,7 +282,8 @@ def raws_to_wbs_unit():
                           ('C13/a-row-whose-parent-id-belongs-to-a-row-is-below-that-rows-task', lambda c: ForAll([j_, k2_], Implies(And(0 <= j_, j_ < n(c), 0 <= k2_, k2_ < n(c), rpar(LRAW.at(RS(c), j_)) == OINT.dt.some(rowid(c, k2_))),
                                                                                                                                           hc(c).par[task_of(c, j_)] == task_of(c, k2_)))),
                           ('C13/root-tasks-are-the-rows-without-a-parent-row-in-row-order', lambda c: inv3(c, final=True)['root-tasks-so-far-in-row-order']),
-                          ('C13/siblings-are-in-row-order', lambda c: inv3(c, final=True)['siblings-are-in-row-order'])]}
+                          ('C13/siblings-are-in-row-order', lambda c: inv3(c, final=True)['siblings-are-in-row-order']),
+                          ('C13/the-predecessors-of-every-rows-task-are-exactly-the-tasks-of-the-listed-ids', lambda c: ForAll([j_, x], Implies(And(0 <= j_, j_ < n(c)), mem(hc(c).P(task_of(c, j_)), x) == linked(c, j_, x))))]}
         def c_new_wbs(eng, st, recv, args, kws, node):
             """WBS(): contract of WBS.__init__ (proved) seen from a caller.  The unallocated part of the universe is modelled as objects that already satisfy the invariant: an unused WBS
             object comes paired with its (blank) hidden root; the constructor makes the pair reachable and touches nothing else"""
@@ -246,13 +302,24 @@ def raws_to_wbs_unit():
             ok.assume(And(r != null, Desc(h.par, h.root[recv.e], r), h.tid[r] == args[0].e))
             return [(ok, V(r, T)), (exc, Raise('RuntimeError'))]
 
-        def c_unreachable(eng, st, recv, args, kws, node):
-            st.oblige('domain/rows-without-dependencies-so-the-link-loop-is-not-entered', BoolVal(False), f'@{node.lineno}')
-            return []
-        contracts = {'fn:WBS': c_new_wbs, 'prop:WBS.roots': c_roots, 'WBS.__getitem__': c_getitem, 'prop:Task.predecessors': c_unreachable,
-                     'fn:Task': c_new_task, 'prop:Task.children': c_children, 'ChildrenFacade.append': c_facade_append, 'setprop:Task.parent': c_set_parent}
-        return Engine(FR, 'raws_to_wbs', contracts, FAC_CLASSES, fc, plugins=[RawPlugin()]), LIST_AX + GRAPH_AX + KID_AX
-    return Unit('raws_to_wbs', FR, build, ['C13'], shards=2, timeout_ms=15000)
+        LFACR = REF('LinkFacade')
+
+        def c_predecessors(eng, st, recv, args, kws, node):          # task.predecessors: a facade of the task's own list
+            st.ghost['link_owner'] = recv.e
+            f_ = fresh('linkfacade', LFACR); st.assume(f_ != LFACR.null)
+            return [(st, V(f_, LFACR))]
+
+        def c_link_append(eng, st, recv, args, kws, node):
+            """_PredecessorsList.append(task) (proved): the owner's predecessors become the old ones followed by the task, through the link setter"""
+            h = H(eng, st); me_ = st.ghost['link_owner']; xnew = eng.coerce(args[0], T)
+            res, rc = link_setter_call(eng, st, 'pre', me_, cat(h.P(me_), one_of(xnew)), node.lineno)
+            return res
+        contracts = {'fn:WBS': c_new_wbs, 'prop:WBS.roots': c_roots, 'WBS.__getitem__': c_getitem, 'prop:Task.predecessors': c_predecessors, 'LinkFacade.append': c_link_append,
+                     'fn:Task': c_new_task, 'prop:Task.children': c_children, 'ChildrenFacade.append': c_append, 'setprop:Task.parent': c_set_parent}
+        return Engine(FR, 'raws_to_wbs', contracts, FAC_CLASSES, fc, plugins=[RawPlugin()]), LIST_AX + GRAPH_AX + CLOSED_AX + (LIST_CAT_AX + DEP_AX + ONE_AX if links else [])
+    if links: return Unit('raws_to_wbs[dependencies]', FR, build, ['C13'], shards=1, timeout_ms=15000, keep=_link_part, focus=lambda nm: [LINKS])
+    return Unit('raws_to_wbs', FR, build, ['C13'], shards=2, timeout_ms=15000, keep=lambda nm: not _link_part(nm),
+                focus=lambda nm: [LINKS if any(k in nm for k in LINK_CLAUSES) else Not(LINKS)])
 
 
-UNITS = [raws_to_wbs_unit()]
+UNITS = [raws_to_wbs_unit(), raws_to_wbs_unit(links=True)]
